@@ -1,6 +1,7 @@
 //! pkv - observer/driver harness binding the TLA+ specification to the real pc-keyboard code.
 //! It enumerates, drives, catches panics and prints JSON. It never judges.
 mod graph;
+mod isolation;
 mod keys;
 mod machines;
 mod replay;
@@ -131,6 +132,15 @@ fn main() {
                 serde_json::json!({"table": args[2], "sequences": rep.seqs.load(std::sync::atomic::Ordering::Relaxed),
                                    "calls": rep.steps.load(std::sync::atomic::Ordering::Relaxed), "mismatching_transitions": rep.count()})
             );
+        }
+        "isolation" => {
+            // pkv isolation <kb1|kb2> <stride> <out.ndjson>
+            if args.len() < 5 {
+                usage();
+            }
+            let mut w = BufWriter::new(File::create(&args[4]).expect("create output"));
+            isolation::sweep(&args[2], args[3].parse().expect("stride"), &mut w);
+            w.flush().unwrap();
         }
         "replay-world" => {
             // pkv replay-world <behaviours.ndjson> <layout name>
